@@ -282,7 +282,9 @@ def documents(draw):
     rule_species = sp_names[len(sp_names) - n_rule_species:]
     rx_species = sp_names[:len(sp_names) - n_rule_species]
     pool = [p for p in gen.PARAM_POOL if p not in sp_names]
-    gparams = [{"id": pool[i], "value": draw(gen.nice(0.1, 5))} for i in range(draw(st.integers(1, 4)))]
+    # (a parameter value is any real number: one in six is negative)
+    gparams = [{"id": pool[i], "value": draw(gen.nice(0.1, 5)) * (-1.0 if draw(st.integers(0, 5)) == 0 else 1.0)}
+               for i in range(draw(st.integers(1, 4)))]
     gids = [p["id"] for p in gparams]
     rule_params = []
     if draw(st.booleans()):
